@@ -106,6 +106,15 @@ def _p1_body(name, V, tvals, w1, w2, depth, pos, aspect, special=0):
                 VA[i], VB[i] = w1, w2
         A, B, affected, sweep_part = idcfg.config(VA, tvals, {}), idcfg.config(VB, tvals, {}), 1, False
         name = "param-value:depth%s" % depth
+    elif name == "param-value-json-kind":
+        # values Python calls equal but JSON (hence the canonical form) does not: 1 / true / 1.0, 0 / false, 2 / 2.0
+        KINDS = [(1, True), (0, False), (2, 2.0), (1, 1.0), (True, 1.0)]
+        assume(0 <= pos < len(KINDS) and 0 <= depth <= 1)
+        ka, kb = KINDS[next(i for i in range(len(KINDS)) if pos == i)]
+        VA, VB = list(V), list(V)
+        slot = 1 if depth == 0 else 4
+        VA[slot], VB[slot] = ka, kb
+        A, B, affected, sweep_part = idcfg.config(VA, tvals, {}), idcfg.config(VB, tvals, {}), 1, False
     elif name == "node-order":
         VA = list(V)
         VA[1], VA[7] = w1, w2  # two different operations: order matters
@@ -136,7 +145,7 @@ def _p1_body(name, V, tvals, w1, w2, depth, pos, aspect, special=0):
     return _check_pair(name, a, b, affected, sweep_part, aspect)
 
 
-MUTS = ["processor", "node-added", "node-order", "param-value", "sweep:wrapped-processor", "sweep:expression", "sweep:expression-constant", "sweep:expression-regroup-sum", "sweep:expression-regroup-product", "sweep:expression-operand-swap", "sweep:mode", "sweep:broadcast", "sweep:collection", "sweep:variable-kind", "sweep:variable-domain", "sweep:variable-domain-length", "sweep:unreferenced-variable-domain"]
+MUTS = ["processor", "node-added", "node-order", "param-value", "param-value-json-kind", "sweep:wrapped-processor", "sweep:expression", "sweep:expression-constant", "sweep:expression-regroup-sum", "sweep:expression-regroup-product", "sweep:expression-operand-swap", "sweep:mode", "sweep:broadcast", "sweep:collection", "sweep:variable-kind", "sweep:variable-domain", "sweep:variable-domain-length", "sweep:unreferenced-variable-domain"]
 
 
 def _replay_p1(param, a):
@@ -220,7 +229,7 @@ def obligations(tier: str) -> List[Ob]:
     tg = ["semantiva/pipeline/graph_builder.py:_canonical_node", "semantiva/pipeline/graph_builder.py:build_canonical_spec", "semantiva/metadata/semantic_id.py:compute_pipeline_semantic_id", "semantiva/metadata/semantic_id.py:compute_pipeline_config_id", "semantiva/metadata/semantic_id.py:compute_node_semantic_id", "semantiva/metadata/semantic_id.py:variable_domain_signature", "semantiva/data_processors/parametric_sweep_factory.py:ParametricSweepFactory.create"]
     return [
         Ob("C05.P1", _make_p1, _replay_p1, params=[(m, a) for m in MUTS for a in ("semantic_id", "config_id", "node")], budget=600, per_path=60,
-           bound="(for the sweep operators the shared swept domain optionally holds inf / nan / -inf, symbolic selector) 17 mutation operators x 3 aspects (semantic id / config id / affected node's UUID-or-semantic-id), one obligation each (processor, node added, node order, parameter value at depth 0-2 / in a list / in a dict in a list, and every part of a sweep definition: wrapped processor, expression, expression constant, mode, broadcast, collection, variable kind, variable domain at a symbolic position of a 7-element sequence, domain length); all values symbolic, mutated values w1 != w2",
+           bound="(for the sweep operators the shared swept domain optionally holds inf / nan / -inf, symbolic selector) 18 mutation operators x 3 aspects (semantic id / config id / affected node's UUID-or-semantic-id), one obligation each (processor, node added, node order, parameter value at depth 0-2 / in a list / in a dict in a list, and every part of a sweep definition: wrapped processor, expression, expression constant, mode, broadcast, collection, variable kind, variable domain at a symbolic position of a 7-element sequence, domain length); all values symbolic, mutated values w1 != w2",
            targets=tg, stubs=list(STUBS) + ["injective-hash model"]),
         Ob("C05.P2", lambda _p: _p2, lambda _p, a: C04._wrap(_p2_body(a["v"], a["n"])), budget=120, bound="2..4 textually identical nodes with one symbolic parameter value", targets=tg[:2]),
         Ob("C05.P3", lambda _p: _p3, _replay_p3, budget=600, per_path=60,
